@@ -10,7 +10,9 @@ reference model
 
 Two families:
   long   every system x start geometry x step factor x method x solver, tolerance 1e-3 and a long cap:
-         update rule, descent, padding, returned values, report, batch-vs-alone prefix equality
+         update rule, descent, padding, returned values, report, batch-vs-alone prefix equality, and the
+         (force, energy) used at the 2nd, middle and last evaluation recomputed by a fresh single point on
+         the recorded geometry (no density reuse)
   stop   for a sub-family of those trajectories T the stop machine is explored exhaustively over
          tolerance x cap, where the alphabet is built to collide with T: caps n*-1, n*, n*+1 around the
          predicted convergence iteration n*(tol), and tolerances bitwise equal to an observed max|F_j|;
@@ -48,6 +50,8 @@ ASSUMPTIONS = [
     "descent is demanded for step factors <= 5e-3 only (2e-2 is observed to descend too, 5e-2 diverges: DESIGN.md)",
     "batch-vs-alone prefix equality within 1000 x scf_eps = 1e-7 (A, eV, eV/A) over the common prefix",
     "the reference update rule x + alpha*F is the one documented in the class constructor",
+    "the independent re-evaluation of (force, energy) is applied only to evaluations before the first energy "
+    "rise of a run (multi-solution SCF far from equilibrium is outside the statement)",
     "molecule.coordinates after run() is one update beyond the last evaluated geometry (by construction of "
     "onestep); the statement only constrains the returned numbers, so this is recorded, not judged",
 ]
@@ -292,10 +296,47 @@ def batch_vs_alone(cb, tb, singles):
 # --------------------------------------------------------------------------- workers
 
 
+def independent_evaluations(c, r, indices):
+    """the (force, energy) the optimiser used at evaluation i must be those of the geometry it evaluated:
+    recomputed by a fresh single point (new Molecule, no density reuse) on the recorded geometry"""
+    prob = []
+    worst = 0.0
+    names, pad, pat = SYSTEMS[c["system"]]
+    tol = K * SCF_EPS
+    # only while the run has descended so far: once a too large step has thrown the molecule out of its basin
+    # (H2CO with alpha 2e-2: r(CO) jumps between 0.9 and 3.1 A) the SCF has several solutions and the one
+    # reached from the reused density need not be the one reached from a fresh guess (outside the statement)
+    rises = np.nonzero((r["e"][1:] - r["e"][:-1]).max(axis=1) > SLACK)[0]
+    first_rise = int(rises[0]) + 1 if len(rises) else len(r["e"])
+    for i in indices:
+        if i >= first_rise:
+            continue
+        mols = []
+        for k, name in enumerate(names):
+            m = start_molecule(name, c["start"], c["seed"])
+            m["coords"] = r["x"][i][k, : len(m["species"])].copy()
+            mols.append(m)
+        with contextlib.redirect_stdout(io.StringIO()), B.uninitialised("zero"), Horizon(HORIZON):
+            obs = B.single_point(mols, sp.make_params(c["method"], c["solver"], eps=SCF_EPS), pad, pat, names=["force", "Etot"])
+        df = float(np.abs(obs["force"] - r["f"][i]).max())
+        de = float(np.abs(obs["Etot"] - r["e"][i]).max())
+        worst = max(worst, df, de)
+        if df > tol:
+            prob.append(f"evaluation {i + 1}: the force the optimiser used differs from the force of the evaluated geometry by {df:.3e} (> {tol:.0e})")
+        if de > tol:
+            prob.append(f"evaluation {i + 1}: the energy the optimiser used differs from the energy of the evaluated geometry by {de:.3e} (> {tol:.0e})")
+    return prob, worst
+
+
 def long_task(c):
     r = run_sd(c)
     prob, state = judge(c, r)
-    return {"rec": r, "problems": prob, "state": state}
+    if not r["error"] and len(r["x"]) > 0:
+        n = len(r["x"])
+        p2, _ = independent_evaluations(c, r, sorted({min(1, n - 1), n // 2, n - 1}))
+        prob += p2
+    rise = float((r["e"][1:] - r["e"][:-1]).max()) if len(r["e"]) > 1 and c["alpha"] <= 5e-3 else None
+    return {"rec": r, "problems": prob, "state": state, "rise": rise}
 
 
 def stop_task(c):
@@ -390,6 +431,7 @@ def describe(c, prob, state):
         ("report_converged_although_cap", "report says converged although"),
         ("stop_iteration", "the stop rule ends"),
         ("stop_early", "run ended after"),
+        ("stale_evaluation", "optimiser used differs from"),
         ("update_rule", "differs from x + alpha*F"),
         ("hidden_move", "not the one produced by the previous update"),
         ("padding_moved", "padding-slot"),
@@ -419,9 +461,10 @@ def run(chk, tier, seed):
     if os.environ.get("C20_DEV"):
         long_cases = [c for c in long_cases if c["alpha"] >= 5e-3]
         chk.cap("C20_DEV")
-    res = pmap(long_task, long_cases, chunk=1, timeout=1800, progress="C20 long runs")
+    res = pmap(long_task, long_cases, chunk=1, timeout=3600, progress="C20 long runs")
     states = set()
     planned = len(long_cases)
+    worst_rise = -1.0e9
     for c, r in zip(long_cases, res):
         k = case_key(c)
         if is_timeout(r) or is_error(r):
@@ -430,6 +473,8 @@ def run(chk, tier, seed):
         if c["cap"] == cap_long:
             _TRAJ.setdefault(traj_key(c), r["rec"])
         n = len(r["rec"]["x"])
+        if r.get("rise") is not None:
+            worst_rise = max(worst_rise, r["rise"])
         chk.case(k, nontrivial=n > 0, outcome=f"long|{r['state']}|{len(r['problems'])}")
         chk.transitions += n
         chk.traces += 1
@@ -458,6 +503,7 @@ def run(chk, tier, seed):
         chk.traces += 1
         if p:
             chk.violation(describe(c, p, None), f"{case_key(c)}: {p[0]}", replay=dict(c, fam="pair"))
+    chk.extra["largest_energy_change_between_evaluations_alpha_le_5e-3"] = worst_rise  # negative = strict descent
     chk.extra["batch_vs_alone_rows_compared"] = npairs
     chk.extra["batch_vs_alone_worst_deviation"] = worst_pair
     # the stop machine
@@ -466,7 +512,7 @@ def run(chk, tier, seed):
     planned += len(stop_cases)
     if skipped:
         chk.extra["stop_cases_beyond_quick_evaluation_budget"] = skipped
-    res = pmap(stop_task, stop_cases, chunk=4, timeout=1800, progress="C20 stop machine")
+    res = pmap(stop_task, stop_cases, chunk=4, timeout=3600, progress="C20 stop machine")
     for c, r in zip(stop_cases, res):
         k = case_key(c)
         if is_timeout(r) or is_error(r):
@@ -500,6 +546,9 @@ def replay(payload):
         return not p
     r = run_sd(c)
     prob, state = judge(c, r)
+    if c["fam"] == "long" and not r["error"] and len(r["x"]) > 0:
+        n = len(r["x"])
+        prob += independent_evaluations(c, r, sorted({min(1, n - 1), n // 2, n - 1}))[0]
     if c["fam"] == "stop":
         t = run_sd(dict(c, tol=TOL_LONG, cap=max(c["cap"], len(r["x"]))))
         p = prefix_equal(r, t)
